@@ -1,6 +1,7 @@
 import OdlModel.Common
 import OdlModel.Model.CRat
 import OdlModel.Model.Weighting
+import OdlModel.Gen.WeightingDispatch
 open OdlModel OdlModel.Weighting
 
 /-! Driver for C02.  Protocol (one line in, one line out):
@@ -303,6 +304,35 @@ def doCDist (l : Line) : Option String := do
   | some (u, axes) => some (showOptF (cdDist floatOps floatRoots u axes c x y))
 
 
+/-! #### branch selection of `_inner_default` / `_norm_default` (extracted trees):
+`idispatch real=<0|1> size=<n> xp=<pattern> yp=<pattern>` → `ok leaf=<routine> v=<exact>`;
+`ndispatch blas=<0|1> real=<0|1> size=<n> xp=<pattern>` → `ok leaf=<routine> v=<double>`;
+the arrays are the patterns repeated cyclically up to `size`. -/
+
+def cyc {K : Type} [OfNat K 0] (l : List K) : Option (Nat → K) :=
+  if l.isEmpty then none else
+  let a := l.toArray
+  some (fun i => a.getD (i % a.size) 0)
+
+def doIDispatch (l : Line) : Option String := do
+  let real ← l.bool? "real"
+  let n ← l.nat? "size"
+  let x ← (← l.crats? "xp") |> cyc
+  let y ← (← l.crats? "yp") |> cyc
+  let f : Facts := ⟨real, n, true⟩
+  some s!"ok leaf={(Gen.innerTree.select f).name} v={(innerDispatch exactOps Gen.innerTree f x y).str}"
+
+def doNDispatch (l : Line) : Option String := do
+  let real ← l.bool? "real"
+  let blas ← l.bool? "blas"
+  let n ← l.nat? "size"
+  let x ← ((← l.crats? "xp").map toCF) |> cyc
+  let f : Facts := ⟨real, n, blas⟩
+  match floatToRat (normDispatch Float.sqrt Gen.normTree f (fun i => floatOps.abs (x i))) with
+  | some r => some s!"ok leaf={(Gen.normTree.select f).name} v={showRat r}"
+  | none => some "err:nonfinite"
+
+
 def handle (l : Line) : Option String :=
   match l.op with
   | "inner" => doInner l
@@ -312,6 +342,8 @@ def handle (l : Line) : Option String :=
   | "cinner" => doCInner l
   | "cnorm" => doCNorm l
   | "cdist" => doCDist l
+  | "idispatch" => doIDispatch l
+  | "ndispatch" => doNDispatch l
   | _ => none
 
 def main : IO Unit := driverLoop handle
